@@ -193,10 +193,14 @@ fn main() {
         match r { Ok(v) => { let f: Vec<f64> = v.iter().flat_map(|t| [t.0, t.1, t.2]).collect(); f64_cells(&f) }, Err(k) => vec![Cell::Panic(k)] }
     };
     for si in 0..(if thorough { 60 } else { 16 }) {
-        let len = rng.range(1, 9) as usize;
+        let len = rng.range(2, 10) as usize;
         let len2 = match si % 3 { 0 => len, 1 => len + 1 + si % 2, _ => len.saturating_sub(1) };
-        let xs = series(&mut rng, len, true);
-        let ys = series(&mut rng, len2, true);
+        // three series in four (almost) null-free with a strictly varying regressor: otherwise every triple is null
+        let dense = |rng: &mut Rng, v: Vec<f64>, reg: bool, on: bool| -> Vec<f64> { if !on { return v; }
+            v.iter().enumerate().map(|(i, x)| if reg { if i % 7 == 6 { *x } else { (i as i64 * 3 + rng.range(0, 2)) as f64 / 4.0 } }
+                                              else if x.is_nan() && i % 5 != 4 { rng.range(-12, 12) as f64 / 4.0 } else { *x }).collect() };
+        let xs = { let v = series(&mut rng, len, true); dense(&mut rng, v, false, si % 4 != 0) };
+        let ys = { let v = series(&mut rng, len2, true); dense(&mut rng, v, true, si % 4 != 0) };
         let w = rng.range(1, len as i64 + 2) as usize;
         let mp = Some(rng.range(0, w as i64) as usize);
         for be in [0u8, 1u8] {
@@ -218,7 +222,7 @@ fn main() {
         let (ha, hb) = (series(&mut rng, h, si % 2 == 0), series(&mut rng, h, true).iter().map(|x| x * 8.0 + 3.0).collect::<Vec<f64>>());
         let (hya, hyb) = (series(&mut rng, h, true), series(&mut rng, h, true));
         let tl = len.max(2);
-        let (tx, ty) = (series(&mut rng, tl, true), series(&mut rng, tl, true));
+        let (tx, ty) = ({ let v = series(&mut rng, tl, true); dense(&mut rng, v, false, si % 4 != 0) }, { let v = series(&mut rng, tl, true); dense(&mut rng, v, true, si % 4 != 0) });
         let ww = rng.range(1, tl as i64) as usize;
         let mpw = Some(rng.range(0, ww as i64) as usize);
         let cat = |a: &Vec<f64>, b: &Vec<f64>| -> Vec<f64> { a.iter().chain(b.iter()).cloned().collect() };
